@@ -1274,8 +1274,18 @@ def build_operator_operand_fixup(capture_error_state):
         try:
             if op == 'USub':
                 return PYTHON_AST_OPERATORS[op](right_op)
+            elif op == 'Pow':
+                result = PYTHON_AST_OPERATORS[op](left_op, right_op)
+                if isinstance(result, complex):
+                    # negative number to a fractional power
+                    return NUM_ERROR
+                float(result)  # OverflowError if not representable
+                return result
             else:
                 return PYTHON_AST_OPERATORS[op](left_op, right_op)
+        except OverflowError:
+            capture_error_state(True, f'Values: {left_op} {op} {right_op}')
+            return NUM_ERROR
         except ZeroDivisionError:
             capture_error_state(True, f'Values: {left_op} {op} {right_op}')
             return DIV0
